@@ -19,6 +19,7 @@ import (
 	"fmt"
 	"net/http"
 	"net/url"
+	"strings"
 
 	"github.com/gobeam/stringy"
 	"k8s.io/apimachinery/pkg/api/errors"
@@ -124,7 +125,7 @@ func (d *dispatcher) ServeHTTP(w http.ResponseWriter, req *http.Request) {
 	location.Host = ep.Host
 	location.Path = req.URL.Path
 	// keep the escaped form sent by the client, e.g. %2F must not become /
-	location.RawPath = req.URL.RawPath
+	location.RawPath = escapeInvalidPathBytes(req.URL.RawPath)
 	location.RawQuery = req.URL.Query().Encode()
 
 	newReq, cancel := newRequestForProxy(location, req, extraInfo.Hostname)
@@ -170,6 +171,40 @@ func newRequestForProxy(location *url.URL, req *http.Request, _ string) (*http.R
 	newReq.URL = location
 
 	return newReq, cancel
+}
+
+// escapeInvalidPathBytes percent-encodes the bytes of an escaped path that net/url does not accept in
+// URL.RawPath (anything but unreserved characters, sub-delims, ':', '@', '/', '[', ']' and '%'). net/url ignores
+// a RawPath holding such a byte and re-encodes Path instead, which turns the client's %2F into / and its * into %2A.
+// Existing escapes are left alone, so the result still decodes to URL.Path.
+func escapeInvalidPathBytes(rawPath string) string {
+	const upperhex = "0123456789ABCDEF"
+	valid := func(c byte) bool {
+		switch {
+		case 'a' <= c && c <= 'z', 'A' <= c && c <= 'Z', '0' <= c && c <= '9':
+			return true
+		}
+		return strings.IndexByte("-_.~!$&'()*+,;=:@/[]%", c) >= 0
+	}
+	n := 0
+	for i := 0; i < len(rawPath); i++ {
+		if !valid(rawPath[i]) {
+			n++
+		}
+	}
+	if n == 0 {
+		return rawPath
+	}
+	b := make([]byte, 0, len(rawPath)+2*n)
+	for i := 0; i < len(rawPath); i++ {
+		c := rawPath[i]
+		if valid(c) {
+			b = append(b, c)
+		} else {
+			b = append(b, '%', upperhex[c>>4], upperhex[c&15])
+		}
+	}
+	return string(b)
 }
 
 func normalizeErrToReason(err error) string {
